@@ -47,6 +47,7 @@ def instances(tier, seed):
     add("step:construct", seq=['construct'], N=3, terms={'bond': 1}, cost=3)
     add("seq:empty-bond-kind-then-extend", seq=['delbondatoms', 'ext'], N=3, terms={'bond': 1}, oterms='bond', cost=10)
     add("seq:unused-table-rows-then-extend", seq=['ext'], N=3, terms={'dihedral': 1}, oterms='dihedral', type_hi=0, cost=5)
+    add("seq:unused-atom-type-rows-no-pair-coeffs-then-extend", seq=['ext'], N=3, terms={'bond': 1}, oterms='bond', no_pair=True, atom_type_hi=1, cost=5)
     add("seq:delete-all-atoms-then-extend", seq=['delall', 'ext'], N=2, terms={'bond': 1}, oterms='bond', cost=5)
     add("seq:getitem-then-extend", seq=['getitem', 'ext'], N=3, terms={'bond': 1}, oterms='angle', cost=30)
     add("seq:copy-then-extend-copy", seq=['copyext'], N=3, terms={'bond': 1}, oterms='bond', oextra=True, cost=10)
@@ -134,7 +135,7 @@ def lmpdat_counts(ctx, a, label):
 def make_other(ctx, p, tag):
     kind = p.get('oterms')
     No = 3 if kind in ('angle', 'dihedral', 'improper') else 2
-    o, so = build_state(ctx, 'o' + tag, No, terms={}, coeff_rows={kind: 2} if kind else {}, atom_rows=2,
+    o, so = build_state(ctx, 'o' + tag, No, terms={}, coeff_rows={kind: 2} if kind else {}, atom_rows=2, pair_coeffs=not p.get('no_pair'),
                         extra={'atom': ['ox'], kind: ['oy']} if p.get('oextra') and kind else None)
     if kind:
         topo = c11_extend.O_TOPO[kind][No][0]
@@ -157,7 +158,10 @@ def body(ctx, p):
         sp = spec_from_state(a)
     else:
         a, sp = build_state(ctx, 's', N, terms=p.get('terms'), coeff_rows={k: ROWS[k] for k in (p.get('terms') or {})} or dict(ROWS),
-                            atom_rows=3, type_hi=p.get('type_hi'), cell=np.diag([9., 10., 11.]))
+                            atom_rows=3, type_hi=p.get('type_hi'), cell=np.diag([9., 10., 11.]), pair_coeffs=not p.get('no_pair'))
+        if p.get('atom_type_hi') is not None:
+            for t in sp.types:
+                ctx.assume(t <= p['atom_type_hi'])
         if p.get('type_hi') is not None:
             # ids in use are a strict prefix of the table: rows beyond them are unused
             for kind in (p.get('terms') or {}):
